@@ -197,7 +197,7 @@ def gen_merge_cases(ctx):
     cases.append(merge_case(rng, 1, 1, family="corpus:split-1"))
     cases.append(merge_case(rng, 2, 3, shapes={0: (4,), 1: (2, 2)}, family="corpus:groups-of-different-shape"))
     kmax, smax = (4, 5) if ctx.thorough else (3, 4)
-    reps = 3 if ctx.thorough else 1
+    reps = 4 if ctx.thorough else 2
     # exhaustive small scope: every k, split, every subset of pre-existing targets, x missing-source patterns
     for _ in range(reps):
         for k in range(1, kmax + 1):
@@ -217,11 +217,11 @@ def gen_merge_cases(ctx):
                     pre = tuple(j for j in range(k) if rng.random() < 0.3)
                     cases.append(merge_case(rng, k, split, pre=pre, n_src=n, family="scope:count-mismatch"))
     # different shapes in different groups (valid), two-dimensional tables, large values
-    for _ in range(60 if ctx.thorough else 20):
+    for _ in range(300 if ctx.thorough else 60):
         k, split = rng.randint(1, kmax), rng.randint(2, smax)
         shapes = {j: rng.choice([(2,), (3,), (5,), (16,), (2, 2), (2, 4), (3, 3)]) for j in range(k)}
         cases.append(merge_case(rng, k, split, shapes=shapes, family="random:valid-mixed-shapes"))
-    for _ in range(40 if ctx.thorough else 8):
+    for _ in range(150 if ctx.thorough else 20):
         k, split = rng.randint(1, 6), rng.randint(2, 12)
         cases.append(merge_case(rng, k, split, shapes={j: (rng.choice([2, 4, 8, 32]),) for j in range(k)},
                                 family="random:larger"))
@@ -541,7 +541,7 @@ def model_plan(cpu, S):
 
 def gen_helper_cases(ctx):
     rng, cases = ctx.rng, []
-    exec_cpu = os.cpu_count() or 1
+    exec_cpu = getattr(os, "process_cpu_count", os.cpu_count)() or 1
 
     def pool(mode, S, cpu, kinds=None):
         c = {"kind": "helper", "variant": "pool", "mode": mode, "S": S, "cpu": cpu, "kinds": kinds or ["pair"] * S}
@@ -575,9 +575,9 @@ def gen_helper_cases(ctx):
     for _ in range(60 if ctx.thorough else 10):
         cases.append(pool("fake", rng.randint(41, 300), rng.randint(1, 64)))
     # real worker processes
-    real_S = list(range(0, 41)) if ctx.thorough else [0, 1, 2, 3, 7, 12, 13, 24, 40]
+    real_S = list(range(0, 41)) if ctx.thorough else [0, 1, 2, 3, 4, 5, 7, 9, 12, 13, 16, 24, 25, 33, 40]
     for S in real_S:
-        for cpu in (cpus if ctx.thorough else rng.sample(cpus, 2)):
+        for cpu in (cpus if ctx.thorough else rng.sample(cpus, 3)):
             cases.append(pool("real", S, cpu))
         for mw in ([1, 2, 3, 5, 12] if ctx.thorough else rng.sample([1, 2, 3, 5, 12], 2)):
             cases.append(executor("real", S, mw))
@@ -589,7 +589,7 @@ def gen_helper_malformed(ctx):
     """calls that fail / results that are not pairs / rejected worker counts: the helper must raise the
     same exception class as the model (which calls ran besides is compared only for the sequential mock)"""
     rng, cases = ctx.rng, []
-    exec_cpu = os.cpu_count() or 1
+    exec_cpu = getattr(os, "process_cpu_count", os.cpu_count)() or 1
     for S in (1, 2, 5, 9, 17):
         for bad in ("none", "scalar", "triple", "raise"):
             kinds = ["pair"] * S
@@ -634,22 +634,33 @@ def run_plans(ctx, pairs):
         FakePool.make_schedule = lambda m, n: ([0] * m, list(range(m)))
         with contextlib.redirect_stdout(io.StringIO()), mock.patch.object(multiprocessing, "cpu_count", return_value=cpu), \
                 mock.patch.object(multiprocessing, "Pool", FakePool):
-            su.perform_parallel_simulation_with_multiprocessing(list(range(S)), _noop)
-        impl.append({"n_processes": rec["processes"], "chunksize": rec["chunksize"], "chunks": rec["tasks"],
+            try:
+                su.perform_parallel_simulation_with_multiprocessing(list(range(S)), _noop)
+            except Exception as e:                                              # noqa
+                rec["raised"] = type(e).__name__
+        impl.append({"n_processes": rec.get("processes"), "chunksize": rec.get("chunksize"), "chunks": rec.get("tasks", []),
                      "closed": rec.get("closed"), "joined": rec.get("joined")})
         reqs.append({"op": "plan", "cpu": cpu, "S": S})
     return impl, reqs
 
 
 def plan_oracle(cpu, S, p):
-    """chunks_partition evaluated on what the real helper handed to the pool"""
-    flat = [x for c in p["chunks"] for x in c]
-    if p["chunksize"] < 1 or p["n_processes"] < 2:
-        return "chunksize < 1 or fewer than two workers"
+    """the property on what the real helper handed to the pool: the pool accepts the chunk size and the
+    batches contain every argument exactly once (given that the pool runs every batch exactly once)"""
+    flat = sorted(x for c in p["chunks"] for x in c)
+    if p["chunksize"] is None or p["chunksize"] < 1:
+        return "chunk size < 1: the pool rejects the call"
     if flat != list(range(S)):
-        return "the batches are not a partition of the argument list in order"
-    if len(p["chunks"]) > p["n_processes"] or any(not c or len(c) > p["chunksize"] for c in p["chunks"]):
-        return "more batches than workers, an empty batch, or a batch longer than the chunk size"
+        return "the batches handed to the pool do not contain every argument exactly once"
+    return None
+
+
+def plan_conformance(cpu, S, p):
+    """the rest of `chunks_partition` (not demanded by the property; a failure is a broken tie, not a violation)"""
+    if p["n_processes"] < 2 or len(p["chunks"]) > p["n_processes"]:
+        return "fewer than two workers or more batches than workers"
+    if any(not c or len(c) > p["chunksize"] for c in p["chunks"]) or [x for c in p["chunks"] for x in c] != list(range(S)):
+        return "an empty batch, a batch longer than the chunk size, or batches out of order"
     if not (p["closed"] and p["joined"]):
         return "pool not closed and joined"
     return None
@@ -707,6 +718,7 @@ def main(ctx):
         plan_impl, plan_reqs = run_plans(ctx, grid)
         ctx.count(len(grid))
         plan_fail = [(g, p, plan_oracle(g[0], g[1], p)) for g, p in zip(grid, plan_impl) if plan_oracle(g[0], g[1], p)]
+        plan_nonconf = [(g, plan_conformance(g[0], g[1], p)) for g, p in zip(grid, plan_impl) if plan_conformance(g[0], g[1], p)]
         drv = core.Driver(ctx.pid)
         answers = drv.batch(reqs + plan_reqs)
         model_out, plan_model = answers[:len(reqs)], answers[len(reqs):]
@@ -724,6 +736,8 @@ def main(ctx):
             a = {k: p[k] for k in ("n_processes", "chunksize", "chunks")}
             if a != ans:
                 mismatches.append(({"kind": "plan", "cpu": cpu, "S": S}, a if S < 50 else "…", ans if S < 50 else "…"))
+        for (cpu, S), text in plan_nonconf:
+            mismatches.append(({"kind": "plan", "cpu": cpu, "S": S}, text, "chunks_partition"))
 
         # ---- evidence
         seen, nontrivial = set(), set()
